@@ -17,18 +17,54 @@ theorem term_noErr_becomeFollower (t l : Nat) (r : Raft) (hd : r.draws ≠ []) :
   | nil => exact absurd h hd
   | cons d rest => exact NoErr.of_ok (becomeFollower_run t l r d rest h)
 
-/-- a message of a lower term is ignored (no CheckQuorum, no PreVote) -/
-theorem step_lower_run (fuel : Nat) (m : Message) (r : Raft) (hcq : r.cfg.checkQuorum = false)
-    (hpv : r.cfg.preVote = false) (h0 : m.term ≠ 0) (hlt : m.term < r.term) (hty : Deliverable m.typ) :
-    (Raft.step (fuel + 1) m).run r = .ok (none, r) := by
+/-- a message of a lower term is ignored, or (CheckQuorum / PreVote; a stale leader's MsgApp / MsgHeartbeat) answered
+by an empty MsgAppResp -/
+theorem step_lower_run_cases (fuel : Nat) (m : Message) (r : Raft)
+    (h0 : m.term ≠ 0) (hlt : m.term < r.term) (hty : Deliverable m.typ) :
+    (Raft.step (fuel + 1) m).run r = .ok (none, r) ∨
+      ((m.typ = .app ∨ m.typ = .heartbeat) ∧
+        (Raft.step (fuel + 1) m).run r = .ok (none, pushMaa r (staleResp r m))) := by
   have h0' : (m.term == 0) = false := by simpa using h0
   have h1 : ¬ (m.term > r.term) := by omega
-  rw [Raft.step]
-  rcases hty with ht | ht | ht | ht | ht | ht <;>
-    simp [StateT.run_bind, StateT.run_get, P_pure_eq, P_ok_bind, h0', h1, hlt, ht, hcq, hpv, StateT.run_pure]
+  have ht0 : r.term ≠ 0 := by omega
+  cases hq : (r.cfg.checkQuorum || r.cfg.preVote) with
+  | false =>
+    left
+    have hq1 : ¬ (r.cfg.checkQuorum = true ∨ r.cfg.preVote = true) := by simpa using hq
+    rw [Raft.step]
+    rcases hty with ht | ht | ht | ht | ht | ht <;>
+      simp [StateT.run_bind, StateT.run_get, P_pure_eq, P_ok_bind, h0', h1, hlt, ht, hq1, StateT.run_pure]
+  | true =>
+    have hq1 : r.cfg.checkQuorum = true ∨ r.cfg.preVote = true := by simpa using hq
+    by_cases hk : m.typ = .app ∨ m.typ = .heartbeat
+    · right
+      refine ⟨hk, ?_⟩
+      rw [Raft.step]
+      rcases hk with ht | ht <;>
+        simp [StateT.run_bind, StateT.run_get, P_pure_eq, P_ok_bind, h0', h1, hlt, ht, hq1, StateT.run_pure,
+          Raft.send, StateT.run_modify, StateT.run_map, pushMaa, staleResp, ht0] <;> rfl
+    · left
+      rw [Raft.step]
+      rcases hty with ht | ht | ht | ht | ht | ht <;>
+        first
+        | (exfalso; simp [ht] at hk; done)
+        | simp [StateT.run_bind, StateT.run_get, P_pure_eq, P_ok_bind, h0', h1, hlt, ht, hq1, StateT.run_pure]
 
-/-- a message of a higher term: `becomeFollower`, then the step of a node that already has the term -/
-theorem step_higher_run (fuel : Nat) (m : Message) (r : Raft) (hcq : r.cfg.checkQuorum = false)
+/-- a message of a lower term that is no MsgApp / MsgHeartbeat is ignored -/
+theorem step_lower_run (fuel : Nat) (m : Message) (r : Raft)
+    (h0 : m.term ≠ 0) (hlt : m.term < r.term) (hty : Deliverable m.typ)
+    (hk : m.typ ≠ .app ∧ m.typ ≠ .heartbeat) :
+    (Raft.step (fuel + 1) m).run r = .ok (none, r) := by
+  rcases step_lower_run_cases fuel m r h0 hlt hty with h | ⟨h | h, _⟩
+  · exact h
+  · exact absurd h hk.1
+  · exact absurd h hk.2
+
+/-- a message of a higher term (no MsgVote inside the leader lease): `becomeFollower`, then the step of a node that
+already has the term -/
+theorem step_higher_run (fuel : Nat) (m : Message) (r : Raft)
+    (hnl : m.typ = .vote → m.context = some campaignTransferCtx ∨ r.cfg.checkQuorum = false ∨ r.lead = 0 ∨
+      ¬ r.electionElapsed < r.cfg.electionTimeout)
     (hgt : r.term < m.term) (hty : Deliverable m.typ) (d : Nat) (rest : List Nat) (hd : r.draws = d :: rest) :
     (Raft.step (fuel + 1) m).run r =
       (Raft.step (fuel + 1) m).run
@@ -37,9 +73,28 @@ theorem step_higher_run (fuel : Nat) (m : Message) (r : Raft) (hcq : r.cfg.check
   have h1 : ¬ (m.term < r.term) := by omega
   have hl : (Next.resetSt r m.term d rest).term = m.term := rfl
   rw [Raft.step]
-  rcases hty with ht | ht | ht | ht | ht | ht <;>
-    simp [StateT.run_bind, StateT.run_get, P_pure_eq, P_ok_bind, h0', h1, hgt, ht, hcq, StateT.run_pure,
+  rcases hty with ht | ht | ht | ht | ht | ht
+  · rcases hnl ht with hc | hc | hc | hc <;>
+      simp [StateT.run_bind, StateT.run_get, P_pure_eq, P_ok_bind, h0', h1, hgt, ht, hc, StateT.run_pure,
+        becomeFollower_run _ _ r d rest hd, leadOf, Nat.lt_irrefl, hl]
+  all_goals
+    simp [StateT.run_bind, StateT.run_get, P_pure_eq, P_ok_bind, h0', h1, hgt, ht, StateT.run_pure,
       becomeFollower_run _ _ r d rest hd, leadOf, Nat.lt_irrefl, hl]
+
+/-- outside the leader lease -/
+theorem not_lease_cases {r : Raft} (h : inLease r ≠ true) :
+    r.cfg.checkQuorum = false ∨ r.lead = 0 ∨ ¬ r.electionElapsed < r.cfg.electionTimeout := by
+  unfold inLease at h
+  cases hcq : r.cfg.checkQuorum with
+  | false => exact Or.inl rfl
+  | true =>
+    right
+    by_cases hl : r.lead = 0
+    · exact Or.inl hl
+    · right
+      intro hlt
+      apply h
+      simp [hcq, hl, hlt]
 
 /-- **lifting by term**: a delivered message (non-zero term) does not throw if the step of a node that already has
 the message's term does not; `s1`, `r1` are the Spec state / node state after the `updateTerm` (or the original
@@ -53,13 +108,23 @@ theorem noErr_by_term {val : Val} {voters : List Id} {n : Nat} {s : Spec.State} 
       NoErr (Raft.step (fuel + 1) m) r1) :
     NoErr (Raft.step (fuel + 1) m) r := by
   rcases Nat.lt_trichotomy m.term r.term with hlt | heq | hgt
-  · exact NoErr.of_ok (step_lower_run fuel m r hinv.st.cq hinv.st.pv h0 hlt hty)
+  · rcases step_lower_run_cases fuel m r h0 hlt hty with h | ⟨_, h⟩
+    · exact NoErr.of_ok h
+    · exact NoErr.of_ok h
   · exact hsame s r hreach rfl rfl hinv heq.symm (fun _ => hd) rfl (Or.inl rfl)
-  · cases hdr : r.draws with
+  · by_cases hl : m.typ = .vote ∧ m.context ≠ some campaignTransferCtx ∧ inLease r = true
+    · exact NoErr.of_ok (Refinement.inLease_vote_ignored fuel m r (Or.inl hl.1) hgt hl.2.2 hl.2.1)
+    have hnl : m.typ = .vote → m.context = some campaignTransferCtx ∨ r.cfg.checkQuorum = false ∨ r.lead = 0 ∨
+        ¬ r.electionElapsed < r.cfg.electionTimeout := by
+      intro hv
+      by_cases hc : m.context = some campaignTransferCtx
+      · exact Or.inl hc
+      · exact Or.inr (not_lease_cases (fun hi => hl ⟨hv, hc, hi⟩))
+    cases hdr : r.draws with
     | nil => exact absurd hdr hd
     | cons d rest =>
       intro e he
-      rw [step_higher_run fuel m r hinv.st.cq hgt hty d rest hdr] at he
+      rw [step_higher_run fuel m r hnl hgt hty d rest hdr] at he
       obtain ⟨s1, hrun, hmsgs, hdur, hinv1, ht1, hst1, _, hlog, _, _⟩ :=
         sim_raise_term' hinv hgt (becomeFollower_run m.term (leadOf m) r d rest hdr)
       exact hsame s1 _ (hrun.reachable hreach) hmsgs hdur hinv1 ht1
@@ -70,6 +135,7 @@ holds if it holds for the unchanged state (lower term) and after the step of a n
 theorem spec_by_term {val : Val} {voters : List Id} {n : Nat} {s : Spec.State} {r : Raft} {m : Message}
     {fuel : Nat} {Q : Raft → Prop} (hinv : RaftInv val voters n r (s.nodes n) s.msgs)
     (hreach : Spec.Reachable (cfgOf voters) s) (hty : Deliverable m.typ) (h0 : m.term ≠ 0) (hlow : Q r)
+    (hlow2 : ∀ x, Q (pushMaa r x))
     (hsame : ∀ s1 r1, Spec.Reachable (cfgOf voters) s1 → s1.msgs = s.msgs →
       (s1.nodes n).dur = (s.nodes n).dur → RaftInv val voters n r1 (s1.nodes n) s1.msgs → r1.term = m.term →
       r1.log = r.log → (r1 = r ∨ r1.state = .follower) →
@@ -79,11 +145,12 @@ theorem spec_by_term {val : Val} {voters : List Id} {n : Nat} {s : Spec.State} {
   intro e r' hrun
   unfold Runs at hrun
   rcases Nat.lt_trichotomy m.term r.term with hlt | heq | hgt
-  · rw [step_lower_run fuel m r hinv.st.cq hinv.st.pv h0 hlt hty] at hrun
-    injection hrun with hrun; injection hrun with _ hrun
-    rw [← hrun]; exact hlow
+  · rcases lower_term_cases h0 hlt hty hrun with rfl | ⟨_, _, rfl⟩
+    · exact hlow
+    · exact hlow2 _
   · exact (hsame s r hreach rfl rfl hinv heq.symm rfl (Or.inl rfl)).elim hrun
-  · obtain ⟨r1, hbf, hrun1⟩ := raise_term_run hinv hgt hty hrun
+  · rcases raise_term_run hinv hgt hty hrun with rfl | ⟨r1, hbf, hrun1⟩
+    · exact hlow
     obtain ⟨s1, hrun', hmsgs, hdur, hinv1, ht1, hst1, _, hlog, _, _⟩ := sim_raise_term' hinv hgt hbf
     exact (hsame s1 r1 (hrun'.reachable hreach) hmsgs hdur hinv1 ht1 hlog (Or.inr hst1)).elim hrun1
 
